@@ -89,6 +89,16 @@ def run(ctx):
                          {"PARSERS": ["relative-time", "negative-timestamp"]}, None]
         for _ in range(600 if ctx.quick() else 30000):
             directed.append((gate_string(rng), rng.choice([{}, {"languages": ["en"]}, {"languages": ["ar"]}, {"languages": ["hi", "en"]}]), rng.choice(gate_settings)))
+        from ..c02gen import fold_string
+        fold_settings = [{"NORMALIZE": False, "DEFAULT_LANGUAGES": ["en"]}, {"NORMALIZE": False}, {"DEFAULT_LANGUAGES": ["en", "fr"]}, None, {"NORMALIZE": False, "DEFAULT_LANGUAGES": ["de"]},
+                         {"NORMALIZE": True, "DEFAULT_LANGUAGES": ["en"], "PARSERS": ["relative-time", "absolute-time"]}]
+        for _ in range(500 if ctx.quick() else 20000):
+            directed.append((fold_string(rng), rng.choice([{}, {}, {"languages": ["en"]}, {"languages": ["tr"]}, {"languages": ["de", "en"]}]), rng.choice(fold_settings)))
+        from ..c02gen import fold_strings_all
+        fa = fold_strings_all()
+        for s_ in (fa if not ctx.quick() else rng.sample(fa, 250) + [x for x in fa if x.startswith("5 ") and not x.endswith("ago")]):
+            for st_ in ({"NORMALIZE": False, "DEFAULT_LANGUAGES": ["en"]}, None):
+                directed.append((s_, {} if st_ else {"languages": ["en"]}, st_))
         for s, kw, st in directed:
             for api in ("ddp", "parse"):
                 cases.append({"s": s, "kw": dict(kw), "settings": st, "api": api, "probe": False, "valid": True})
